@@ -510,9 +510,11 @@ def scen_fault(ctx, base, max_k):
 
 DAEMON_DIRECTED = [
     # (eapi, [(kind, nonfatal)], fatal_at)
-    ("7", [("doins", False), ("doins-missing", True), ("dosym", False), ("doins-missing-odd-name", True), ("dobin", False)], None),
+    ("7", [("doins", False), ("doins-missing", True), ("dosym", False), ("doins-missing-odd-name", True), ("dobin", False),
+           ("unpack-missing", True), ("docompress", False), ("keepdir", False)], None),
     ("8", [("dodir", False), ("has_version-absent", False), ("doins-dir", False), ("dodir", False), ("dosym", False)], 2),
-    ("5", [("has_version-present", False), ("doman-nosection", True), ("doins-r", True), ("keepdir", False), ("dodoc", False)], None),
+    ("5", [("has_version-present", False), ("doman-nosection", True), ("doins-r", True), ("keepdir", False), ("unpack-bad-path", True),
+           ("dodoc", False), ("unpack-missing", False), ("dodir", False), ("dosym", False)], 6),
     ("6", [("doins-two", False), ("dosym-one-arg", True), ("doman", False), ("dobin-missing", False), ("dosym", False),
            ("dodir", False)], 3),
 ]
